@@ -612,7 +612,7 @@ func genU(c *xcurve, r *lib.Rng, sp []named) named {
 		if n == 32 {
 			return named{"edge-limbs", r.EdgeBytes(n, uint64(lib.Pick(r, 19, 38)))}
 		}
-		return named{"edge-limbs", r.EdgeBytes(n, uint64(lib.Pick(r, 1, 2, 1<<32)))}
+		return named{"edge-limbs", r.EdgeBytes(n, lib.Pick[uint64](r, 1, 2, 1<<32))}
 	case 4, 5:
 		return sp[r.Intn(len(sp))]
 	case 6, 7: // a special value with one or two bits flipped
